@@ -45,3 +45,171 @@ pub fn check_result_laws(r: &ActorResult<SA>) -> (bool, String) {
     }
     (bad.is_empty(), bad.join("; "))
 }
+
+// ------------------------------------------------------------------ stand-alone enumerations (rsv valenum)
+
+fn dummy_actor() -> SA {
+    SA {
+        idx: 0,
+        owner: 0,
+        spec: std::sync::Arc::new(crate::model::ActorSpec::plain(1)),
+        slots: Vec::new(),
+        log: vec!["x".into()],
+        seq: 0,
+        run_inv: 0,
+    }
+}
+
+/// All shapes of ActorResult: Completed x killed, Failed x phase x killed x actor present.
+pub fn enum_actor_results() -> (u64, Vec<String>) {
+    use crate::world::TagErr;
+    let mut n = 0;
+    let mut bad = Vec::new();
+    for killed in [false, true] {
+        let r: ActorResult<SA> = ActorResult::Completed { actor: dummy_actor(), killed };
+        n += 1;
+        let (ok, d) = check_result_laws(&r);
+        if !ok {
+            bad.push(format!("Completed{{killed:{killed}}}: {d}"));
+        }
+        // conversions
+        let t: (Option<SA>, Option<TagErr>) = ActorResult::Completed { actor: dummy_actor(), killed }.into();
+        if t.0.is_none() || t.1.is_some() {
+            bad.push(format!("Completed{{killed:{killed}}}: tuple conversion"));
+        }
+        if (ActorResult::Completed { actor: dummy_actor(), killed }).to_result().is_err() {
+            bad.push("Completed: to_result".into());
+        }
+        if (ActorResult::<SA>::Completed { actor: dummy_actor(), killed }).into_error().is_some() {
+            bad.push("Completed: into_error".into());
+        }
+        if (ActorResult::<SA>::Completed { actor: dummy_actor(), killed }).into_actor().is_none() {
+            bad.push("Completed: into_actor".into());
+        }
+    }
+    for phase in [FailurePhase::OnStart, FailurePhase::OnRun, FailurePhase::OnStop, FailurePhase::OnRunThenOnStop] {
+        for killed in [false, true] {
+            for has in [false, true] {
+                let mk = || ActorResult::<SA>::Failed { actor: if has { Some(dummy_actor()) } else { None }, error: TagErr(77), phase, killed };
+                n += 1;
+                let (ok, d) = check_result_laws(&mk());
+                if !ok {
+                    bad.push(format!("Failed{{{phase:?},killed:{killed},actor:{has}}}: {d}"));
+                }
+                let t: (Option<SA>, Option<TagErr>) = mk().into();
+                if t.0.is_some() != has || t.1.map(|e| e.0) != Some(77) {
+                    bad.push(format!("Failed{{{phase:?}}}: tuple conversion"));
+                }
+                if mk().to_result().err().map(|e| e.0) != Some(77) {
+                    bad.push(format!("Failed{{{phase:?}}}: to_result"));
+                }
+                if mk().into_error().map(|e| e.0) != Some(77) {
+                    bad.push(format!("Failed{{{phase:?}}}: into_error"));
+                }
+                if mk().into_actor().is_some() != has {
+                    bad.push(format!("Failed{{{phase:?}}}: into_actor"));
+                }
+            }
+        }
+    }
+    (n, bad)
+}
+
+/// Error::is_retryable <=> Timeout, over every variant.
+pub fn enum_errors() -> (u64, Vec<String>) {
+    use rsactor::{Error, Identity};
+    let id = Identity::new(1, "t");
+    let rt = tokio::runtime::Builder::new_current_thread().build().unwrap();
+    let join_err = rt.block_on(async {
+        let h = tokio::spawn(async { std::future::pending::<()>().await });
+        h.abort();
+        h.await.unwrap_err()
+    });
+    let all: Vec<(Error, bool)> = vec![
+        (Error::Send { identity: id, details: "d".into() }, false),
+        (Error::Receive { identity: id, details: "d".into() }, false),
+        (Error::Timeout { identity: id, timeout: std::time::Duration::from_millis(5), operation: "ask".into() }, true),
+        (Error::Downcast { identity: id, expected_type: "x".into() }, false),
+        (Error::Runtime { identity: id, details: "d".into() }, false),
+        (Error::MailboxCapacity { message: "m".into() }, false),
+        (Error::Join { identity: id, source: join_err }, false),
+    ];
+    let mut bad = Vec::new();
+    for (e, want) in &all {
+        if e.is_retryable() != *want {
+            bad.push(format!("{e}: is_retryable() = {}", e.is_retryable()));
+        }
+    }
+    (all.len() as u64, bad)
+}
+
+/// The crate's own wait-for walk against plain reachability on every acyclic functional graph with <= n nodes.
+#[cfg(feature = "f_deadlock")]
+pub fn enum_graphs(maxn: u64) -> (u64, Vec<String>) {
+    let mut cases = 0;
+    let mut bad = Vec::new();
+    for n in 1..=maxn {
+        // every node has at most one successor: succ[i] in {none, 1..n}; ids are 1..n
+        let mut succ = vec![0u64; n as usize];
+        loop {
+            // acyclic?
+            let acyclic = (0..n).all(|s| {
+                let mut cur = s + 1;
+                for _ in 0..=n {
+                    let nx = succ[(cur - 1) as usize];
+                    if nx == 0 {
+                        return true;
+                    }
+                    cur = nx;
+                }
+                false
+            });
+            if acyclic {
+                let edges: Vec<(u64, u64)> = (0..n).filter(|i| succ[*i as usize] != 0).map(|i| (i + 1, succ[i as usize])).collect();
+                for from in 1..=n {
+                    for to in 1..=n {
+                        if from == to {
+                            continue; // the caller tests self-asks before the walk
+                        }
+                        cases += 1;
+                        // reference: follow successors from `from`
+                        let mut reach = false;
+                        let mut cur = from;
+                        for _ in 0..=n {
+                            let nx = succ[(cur - 1) as usize];
+                            if nx == 0 {
+                                break;
+                            }
+                            if nx == to {
+                                reach = true;
+                                break;
+                            }
+                            cur = nx;
+                        }
+                        let got = rsactor::verif::has_path(&edges, from, to);
+                        if got != reach && bad.len() < 5 {
+                            bad.push(format!("graph {edges:?}: has_path({from},{to}) = {got}, reachability = {reach}"));
+                        }
+                    }
+                }
+            }
+            // next assignment
+            let mut i = 0;
+            loop {
+                if i == n as usize {
+                    break;
+                }
+                succ[i] += 1;
+                if succ[i] <= n {
+                    break;
+                }
+                succ[i] = 0;
+                i += 1;
+            }
+            if i == n as usize {
+                break;
+            }
+        }
+    }
+    (cases, bad)
+}
